@@ -40,6 +40,12 @@ pub fn build_ex_pair(
 }
 
 impl Exchange {
+    /// Verification hook: read-only view of the derived key, ephemeral scalar and shared point.
+    #[cfg(gm_rs_verif)]
+    pub fn verif_state(&self) -> (Option<Vec<u8>>, Option<U256>, Option<Point>) {
+        (self.k.clone(), self.r, self.v)
+    }
+
     pub fn new(
         klen: usize,
         id: Option<&str>,
